@@ -38,7 +38,7 @@ ListOf(e) == {<<x[1], x[2]>> : x \in {e.list[i] : i \in 1..Len(e.list)}}
 \* the part of a result the property talks about
 SameRes(k, model, e) ==
     /\ model.ok = e.ok
-    /\ (k = "auth" /\ model.ok) => (model.adm = e.adm)
+    /\ (k = "auth" /\ model.ok /\ e.admknown) => (model.adm = e.adm)
     /\ (k = "list" /\ model.ok) => (model.list = ListOf(e))
 
 FilesOf(e) == [u \in Users |-> e.files[u]]
